@@ -279,6 +279,26 @@ theorem C07_runtime_repaired :
     tyKey (.runtime [0x72] [0x78] (some [0x79])) ≠ tyKey (.runtime [0x72] [0x78] none) ∧
     tyKey (.runtime [0x72] [] (some [0x78])) ≠ tyKey (.runtime [0x72] [0x78] none) := by decide
 
+/-- Struct types are inside `tyEq` / `tyKey` (`C07_type_key_iff`): members compared IN ORDER by key type and value type; the key
+    is the number of members, then per member its entry key (the plain name, or the type `Optional['name']` / `NotUndef['name']`
+    when "optional key" and "the value accepts undef" disagree) and its value type, each delimited.
+    The former witnesses of finding C07-type-param-hash-undelimited (the entry keys were written as printed text, undelimited;
+    /repo fix 61b915c): a member name that swallows "\x03<framed Integer key>b", and a member literally named `Optional['a']`
+    against the optional member `a` — never Equal, and now with different keys -/
+def structAB : Ty := .struct [([0x61], false, .int minInt maxInt), ([0x62], false, .str)]
+def structSwallow : Ty :=
+  .struct [([0x61, 0x03, 0x0c, 0x01, 0x74, 0x09, 0x01, 0x73, 0x49, 0x6e, 0x74, 0x65, 0x67, 0x65, 0x72, 0x62], false, .str)]
+theorem C07_struct_key_repaired :
+    TyWF structAB = true ∧ TyWF structSwallow = true ∧ tyEq structAB structSwallow = false ∧ tyKey structAB ≠ tyKey structSwallow ∧
+    tyEq (.struct [([0x61], true, .int 1 2)]) (.struct [([0x4f, 0x70, 0x74, 0x69, 0x6f, 0x6e, 0x61, 0x6c, 0x5b, 0x27, 0x61, 0x27, 0x5d], false, .int 1 2)]) = false ∧
+    tyKey (.struct [([0x61], true, .int 1 2)]) ≠
+      tyKey (.struct [([0x4f, 0x70, 0x74, 0x69, 0x6f, 0x6e, 0x61, 0x6c, 0x5b, 0x27, 0x61, 0x27, 0x5d], false, .int 1 2)]) ∧
+    tyKey (.struct [([0x61], false, .int 1 2), ([0x62], false, .str)]) ≠ tyKey (.struct [([0x62], false, .str), ([0x61], false, .int 1 2)]) := by decide
+example : tyKey (.struct [([0x61], true, .var [.str, .undef])]) = tyKey (.struct [([0x61], true, .var [.undef, .str])]) :=
+  (C07_type_key_iff _ _ (by decide) (by decide)).mpr (by decide)
+example : acceptsUndef (.var [.str, .undef]) = true ∧ acceptsUndef (.var [.str, .int 1 2]) = false ∧
+    (mkStructElem [0x61] 0 (.opt .str)).2.1 = true ∧ (mkStructElem [0x61] 0 .str).2.1 = false := by decide
+
 /-- the former witnesses of the findings C07-callable-all-equal (`CallableType.Equals` was a bare type assertion; /repo fix
     3d635fb) and C07-callable-parameters-key (the key was built from `Parameters()`, which drops Unit members and an implied
     Tuple size; /repo fix a044786): `Callable` and `Callable[String]` are no longer Equal; `Callable[Unit, String]` and
